@@ -102,6 +102,13 @@ func (m *vMon) enter(ctx context.Context, kind string, h backend.Handle) func() 
 		return func() {}
 	}
 	m.nonLock.Add(1)
+	// read the freeze state BEFORE counting this operation as in flight: the harness arms the strict
+	// rule only after it saw all slots in flight, so every operation counted by then has already
+	// taken its (unfrozen) reading
+	m.mu.Lock()
+	fa, last, b := m.frozenAt, m.lastFrz, m.barrier
+	strict := m.strict.Load()
+	m.mu.Unlock()
 	n := m.inflight.Add(1)
 	for {
 		old := m.maxIn.Load()
@@ -112,10 +119,7 @@ func (m *vMon) enter(ctx context.Context, kind string, h backend.Handle) func() 
 	if n > m.conns {
 		m.rec.Violation("limit-exceeded", fmt.Sprintf("%d non-lock operations inside the inner backend with Connections=%d (entering: %s %v)", n, m.conns, kind, h), m.replay)
 	}
-	m.mu.Lock()
-	fa, last, b := m.frozenAt, m.lastFrz, m.barrier
-	m.mu.Unlock()
-	if fa != 0 && m.strict.Load() {
+	if fa != 0 && strict {
 		m.rec.Violation("started-while-frozen", fmt.Sprintf("%s %v entered the inner backend while frozen: it was queued for a slot when Freeze() returned (all %d slots were held inside the backend then) and got through before Unfreeze()", kind, h, m.conns), m.replay)
 	}
 	if op != nil {
